@@ -122,10 +122,14 @@ class Likelihood:
 class Transform:
     """Prior transform with call counter (must be pure: re-evaluated by the monitors)."""
 
-    def __init__(self, target, dtype=None, alias=False):
+    def __init__(self, target, dtype=None, alias=False, style=None):
         self.t = target
         self.n_calls = 0
         self.dtype = dtype
+        # style "indexed": written for ONE point, parameter by parameter (x[0] = f0(u[0]); x[1] = f1(u[1]); ...), as the
+        # library's documentation recommends for non-trivial priors.  Handed a whole (n, d) batch it neither raises nor
+        # broadcasts row-wise - it returns an array of the same shape with other contents.
+        self.style = style
         # alias: for a unit-cube prior the transform is the identity and returns ITS ARGUMENT (`lambda u: u`), so x and u are
         # one object unless the library copies
         self.alias = bool(alias) and bool(np.all(np.asarray(target.lo) == 0.0) and np.all(np.asarray(target.hi) == 1.0)) \
@@ -135,5 +139,11 @@ class Transform:
         self.n_calls += 1
         if self.alias:
             return u
+        if self.style == "indexed" and type(self.t).prior_transform.__qualname__.startswith("Target."):
+            u = np.asarray(u)
+            x = np.zeros_like(u)
+            for i in range(self.t.n_dim):
+                x[i] = self.t.lo[i] + (self.t.hi[i] - self.t.lo[i]) * u[i]
+            return x
         x = self.t.prior_transform(u)
         return x if self.dtype is None else np.asarray(x).astype(self.dtype)
